@@ -425,12 +425,12 @@ def classify(line, impl, why):
         relaxed, limit, segs = split_line(line)
     except Exception:
         return None
+    if tiny_limit_signature(relaxed, limit, segs):      # the one known finding first: with a limit below 34 the length check
+        return "C21-tiny-limit"                         # decides on a partial method whatever else the input looks like
     if cr_split_signature(relaxed, segs):
         return "C21-cr-split"
     if line_limit_signature(relaxed, limit, segs):
         return "C21-line-limit"
-    if tiny_limit_signature(relaxed, limit, segs):
-        return "C21-tiny-limit"
     return None
 
 
